@@ -19,6 +19,7 @@ type verifNode struct {
 	consumeBubble  bool
 	cmdOnTarget    Command
 	cmdOnFocusIn   Command
+	cmdOnFocusOut  Command
 	consumeHover   bool // consume command returned from the MouseEnter / MouseLeave handlers
 }
 
@@ -44,6 +45,9 @@ func (n *verifNode) HandleEvent(ev vaxis.Event, ph EventPhase) (Command, error) 
 	*n.log = append(*n.log, verifLogEntry{n.id, p, verifKind(ev)})
 	if verifKind(ev) == 1 {
 		return n.cmdOnFocusIn, nil
+	}
+	if verifKind(ev) == 2 {
+		return n.cmdOnFocusOut, nil
 	}
 	if verifKind(ev) == 3 || verifKind(ev) == 4 {
 		if n.consumeHover {
@@ -112,6 +116,11 @@ func VerifC15Focus() {
 	app.fh = focusHandler{root: ws[0], focused: ws[f]}
 	app.fh.updatePath(app, root)
 	log = log[:0]
+	if zzverif.Bool("staleConsume") {
+		// a consume command interpreted outside any dispatch (a hover notification's handler
+		// returning one during the per-frame mouse update) must not leak into the next event
+		app.handleCommand(ConsumeEventCmd{})
+	}
 	app.fh.handleEvent(app, vaxis.Key{Keycode: 'x'})
 	// expected
 	var want []verifLogEntry
@@ -183,6 +192,11 @@ func VerifC15Commands() {
 	case 3:
 		b.cmdOnFocusIn = FocusWidgetCmd(a)
 		chain = append(chain, a)
+	}
+	if zzverif.Bool("oldWidgetClings") {
+		// the widget losing the focus answers its FocusOut with a focus command for itself:
+		// it is still the focused widget at that moment, so nothing happens
+		a.cmdOnFocusOut = FocusWidgetCmd(a)
 	}
 	app.handleCommand(cmd)
 	zzverif.Assert(app.redraw == wantRedraw && app.refresh == wantRefresh && app.shouldQuit == wantQuit && app.consumeEvent == wantConsume, "command-flags-set-exactly")
